@@ -47,7 +47,7 @@ impl Write for ChunkySink {
 }
 
 fn step<const L: usize>(interrupts: u8) {
-    let data: [u8; L] = kani::any();
+    let data: [u8; L] = crate::util::sym_bytes::<L>();
     let cnt0: u64 = kani::any();
     kani::assume(cnt0 < (1u64 << 40));
     let sum0: u32 = kani::any();
